@@ -1,0 +1,25 @@
+//! Public handles on the crate-private shutdown primitives.
+
+use crate::shutdown::{CompletionGuard, Notification, Shutdown};
+
+/// What a listener / session gets from [`Shutdown::notification_handler`]
+pub struct NotificationDoor(Notification);
+
+/// What a listener / session gets from [`Shutdown::completion_guard`]; dropping it reports the
+/// participant as finished
+pub struct GuardDoor(#[allow(dead_code)] CompletionGuard);
+
+impl NotificationDoor {
+    /// The real [`Notification::wait`]
+    pub async fn wait(&mut self) -> Result<(), String> {
+        self.0.wait().await.map_err(|e| e.to_string())
+    }
+}
+
+pub fn notification_handler(shutdown: &Shutdown) -> NotificationDoor {
+    NotificationDoor(shutdown.notification_handler())
+}
+
+pub fn completion_guard(shutdown: &Shutdown) -> Option<GuardDoor> {
+    shutdown.completion_guard().map(GuardDoor)
+}
